@@ -581,7 +581,7 @@ func TestCheckMatchingHistory(t *testing.T) {
 		}
 		nt := applied > 0 && len(c.Case.Left.People) >= 2 && len(c.Case.Right.People) >= 2
 		s.Eval(harness.JSON(c), nt, cls)
-		if nt {
+		if nt && !c.Case.Left.IsBig() && !c.Case.Right.IsBig() {
 			s.MaybeSample(c)
 		}
 		if fl != nil && s.Report(c, fl) {
